@@ -6,7 +6,6 @@ import (
 	"fmt"
 	"os"
 	"path/filepath"
-	"regexp"
 	"sort"
 
 	"github.com/JunNishimura/Goit/internal/object"
@@ -116,9 +115,12 @@ func (idx *Index) GetEntry(path []byte) (int, *Entry, bool) {
 func (idx *Index) GetEntriesByDirectory(dirName string) []*Entry {
 	var entries []*Entry
 
-	dirRegexp := regexp.MustCompile(fmt.Sprintf(`%s\/.+`, dirName))
+	prefix := dirName + "/"
+	if dirName == "." {
+		prefix = ""
+	}
 	for _, entry := range idx.Entries {
-		if dirRegexp.Match(entry.Path) {
+		if len(entry.Path) > len(prefix) && bytes.HasPrefix(entry.Path, []byte(prefix)) {
 			entries = append(entries, entry)
 		}
 	}
@@ -127,31 +129,7 @@ func (idx *Index) GetEntriesByDirectory(dirName string) []*Entry {
 }
 
 func (idx *Index) IsRegisteredAsDirectory(dirName string) bool {
-	if idx.EntryNum == 0 {
-		return false
-	}
-
-	dirRegexp := regexp.MustCompile(fmt.Sprintf(`%s\/.+`, dirName))
-
-	left := 0
-	right := int(idx.EntryNum)
-	for {
-		middle := (left + right) / 2
-		entry := idx.Entries[middle]
-		if dirRegexp.MatchString(string(entry.Path)) {
-			return true
-		} else if string(entry.Path) < dirName {
-			left = middle + 1
-		} else {
-			right = middle
-		}
-
-		if right-left < 1 {
-			break
-		}
-	}
-
-	return false
+	return len(idx.GetEntriesByDirectory(dirName)) > 0
 }
 
 func (idx *Index) Update(rootGoitPath string, hash sha.SHA1, path []byte) (bool, error) {
